@@ -843,19 +843,11 @@ class Ctx(object):
         ('sat', model) with a counter-example, or ('unknown', None)."""
         c = to_bool(claim)
         t0 = time.time()
-        s = z3.Solver()
-        s.set("timeout", int(timeout_ms))
-        for p in self.pc:
-            s.add(p)
-        for e in extra:
-            s.add(e)
-        s.add(z3.Not(c))
-        r = str(s.check())
+        asserts = list(self.pc) + list(extra) + [z3.Not(c)]
+        r, model = solve(asserts, timeout_ms)
         self.stats.solver_s += time.time() - t0
         self.stats.queries[r] += 1
-        if r == "sat":
-            return r, s.model()
-        return r, None
+        return r, model
 
     def reachable(self, timeout_ms=10000):
         r = self._check(timeout_ms=timeout_ms)
@@ -867,6 +859,72 @@ class Ctx(object):
             s.add(p)
         s.add(z3.Not(to_bool(claim)))
         return s.to_smt2()
+
+
+def _uf_apps(terms, names=("exp",)):
+    seen, apps = set(), []
+
+    def walk(e):
+        k = e.get_id()
+        if k in seen:
+            return
+        seen.add(k)
+        if z3.is_app(e):
+            if e.decl().kind() == z3.Z3_OP_UNINTERPRETED and \
+                    e.num_args() == 1 and e.decl().name() in names:
+                apps.append(e)
+            for ch in e.children():
+                walk(ch)
+    for t in terms:
+        walk(t)
+    return apps
+
+
+def abstract_ufs(asserts, names=("exp",)):
+    """Replace applications f(a) of the named unary UFs by fresh reals, one
+    per class of syntactically-equal (after polynomial normalisation)
+    arguments.  Sound for `unsat` (it only forgets congruence)."""
+    apps = _uf_apps(asserts, names)
+    if not apps:
+        return None
+    classes = []          # (name, arg, var)
+    subs = []
+    for a in apps:
+        arg = a.arg(0)
+        for (nm, rep, var) in classes:
+            if nm == a.decl().name() and z3.is_true(z3.simplify(
+                    z3.simplify(arg - rep, som=True) == 0)):
+                subs.append((a, var))
+                break
+        else:
+            var = z3.Real("%s!abs%d" % (a.decl().name(), len(classes)))
+            classes.append((a.decl().name(), arg, var))
+            subs.append((a, var))
+    # innermost first is not needed: exp arguments here never contain exp
+    new = [z3.substitute(t, *subs) for t in asserts]
+    new += [v > 0 for (nm, _, v) in classes if nm == "exp"]
+    if _uf_apps(new, names):
+        return None
+    return new
+
+
+def solve(asserts, timeout_ms):
+    """One-shot query on a fresh solver.  If unary UFs (exp) occur, an
+    abstraction to fresh reals is tried first so that nlsat applies."""
+    ab = abstract_ufs(asserts)
+    if ab is not None:
+        s = z3.Solver()
+        s.set("timeout", int(timeout_ms))
+        s.add(*ab)
+        if str(s.check()) == "unsat":
+            return "unsat", None
+    s = z3.Solver()
+    s.set("timeout", int(timeout_ms))
+    s.add(*asserts)
+    r = str(s.check())
+    if r == "sat":
+        return r, s.model()
+    return r, None
 
 
 class Path(object):
